@@ -43,7 +43,9 @@ pub struct T {
 pub fn arity(op: &str) -> Option<usize> {
     Some(match op {
         "in0" | "in1" | "const" => 0,
-        "union" | "chain" | "join" | "xsing" => 2,
+        "union" | "chain" | "join" | "xsing" | "antijoin" | "notin" => 2,
+        "b0" | "b1" | "cyc" => 0,
+        "sort" | "limit" | "count" | "max" | "min" | "first" | "last" | "tostream" | "defer" | "across" => 1,
         "map" | "filter" | "flatmap" | "filtermap" | "enumerate" | "scan" | "unique" | "kscan" | "fold" | "reduce"
         | "kfold" | "foldb" | "smap" | "sfilter" => 1,
         _ => return None,
@@ -235,11 +237,130 @@ pub fn eval(t: &T, ins: &[Vec<i64>; 2]) -> Vec<V> {
     }
 }
 
+/// A tick-level program: what goes to `complete_next_tick` (if any) and the observed collection.
+pub struct TickProg {
+    pub next: Option<T>,
+    pub out: T,
+}
+
+pub fn parse_tick_prog(tokens: &[&str]) -> Option<TickProg> {
+    match tokens.first()? {
+        &"tick" => Some(TickProg { next: None, out: parse(&tokens[1..])? }),
+        &"tcyc" => {
+            // NEXT then OUT: find the split by parsing a prefix
+            for cut in 2..tokens.len() {
+                if let (Some(n), Some(o)) = (parse(&tokens[1..cut]), parse(&tokens[cut..])) {
+                    return Some(TickProg { next: Some(n), out: o });
+                }
+            }
+            None
+        }
+        _ => None,
+    }
+}
+
+/// content of the tick-scoped collection `t` in the LAST tick of `hist` — plain iterators over the tick's
+/// batch; `defer`/`cyc` look at the previous tick, `across` at all ticks so far
+pub fn eval_tick(p: &TickProg, t: &T, hist: &[(Vec<i64>, Vec<i64>)]) -> Vec<V> {
+    let kid = |i: usize| eval_tick(p, &t.kids[i], hist);
+    let now = hist.last();
+    match t.op.as_str() {
+        "b0" => now.map(|n| n.0.iter().map(|x| V::I(*x)).collect()).unwrap_or_default(),
+        "b1" => now.map(|n| n.1.iter().map(|x| V::I(*x)).collect()).unwrap_or_default(),
+        "cyc" => match (&p.next, hist.len()) {
+            (Some(n), l) if l >= 2 => eval_tick(p, n, &hist[..l - 1]),
+            _ => vec![],
+        },
+        "defer" => {
+            if hist.len() >= 2 {
+                eval_tick(p, &t.kids[0], &hist[..hist.len() - 1])
+            } else {
+                vec![]
+            }
+        }
+        "across" => {
+            let mut acc = fold_init(&t.arg);
+            for n in 1..=hist.len() {
+                for v in eval_tick(p, &t.kids[0], &hist[..n]) {
+                    acc = foldf(&t.arg, acc, v.int());
+                }
+            }
+            vec![V::I(acc)]
+        }
+        "map" => kid(0).iter().map(|v| mapf(&t.arg, v)).collect(),
+        "filter" => kid(0).into_iter().filter(|v| predf(&t.arg, v)).collect(),
+        "flatmap" => kid(0).iter().flat_map(|v| flatf(&t.arg, v)).collect(),
+        "filtermap" => kid(0).iter().filter_map(|v| optf(&t.arg, v)).collect(),
+        "enumerate" => kid(0).into_iter().enumerate().map(|(i, v)| V::p(V::I(i as i64), v)).collect(),
+        "unique" => {
+            let mut seen = HashSet::new();
+            kid(0).into_iter().filter(|v| seen.insert(v.clone())).collect()
+        }
+        "sort" => {
+            let mut v = kid(0);
+            v.sort();
+            v
+        }
+        "scan" => {
+            let mut acc = 0i64;
+            kid(0).iter().map_while(|v| scanf(&t.arg, &mut acc, v.int())).map(V::I).collect()
+        }
+        "limit" => kid(0).into_iter().take(t.arg.parse().unwrap()).collect(),
+        "fold" => vec![V::I(kid(0).iter().fold(fold_init(&t.arg), |a, v| foldf(&t.arg, a, v.int())))],
+        "reduce" => kid(0).iter().map(|v| v.int()).reduce(|a, x| redf(&t.arg, a, x)).map(V::I).into_iter().collect(),
+        "count" => vec![V::I(kid(0).len() as i64)],
+        "max" => kid(0).into_iter().max().into_iter().collect(),
+        "min" => kid(0).into_iter().min().into_iter().collect(),
+        "first" => kid(0).into_iter().next().into_iter().collect(),
+        "last" => kid(0).into_iter().last().into_iter().collect(),
+        "tostream" => kid(0),
+        "kfold" => {
+            let mut m: BTreeMap<V, i64> = BTreeMap::new();
+            for v in kid(0) {
+                let (k, x) = v.pair();
+                let e = m.entry(k.clone()).or_insert(fold_init(&t.arg));
+                *e = foldf(&t.arg, *e, x.int());
+            }
+            m.into_iter().map(|(k, a)| V::p(k, V::I(a))).collect()
+        }
+        "chain" => kid(0).into_iter().chain(kid(1)).collect(),
+        "xsing" => match kid(1).first() {
+            Some(s) => kid(0).into_iter().map(|v| V::p(v, s.clone())).collect(),
+            None => vec![],
+        },
+        "join" => {
+            let (l, r) = (kid(0), kid(1));
+            l.iter()
+                .flat_map(|x| {
+                    r.iter()
+                        .filter(|y| x.pair().0 == y.pair().0)
+                        .map(|y| V::p(x.pair().0.clone(), V::p(x.pair().1.clone(), y.pair().1.clone())))
+                        .collect::<Vec<_>>()
+                })
+                .collect()
+        }
+        "antijoin" => {
+            let neg: HashSet<V> = kid(1).into_iter().collect();
+            kid(0).into_iter().filter(|v| !neg.contains(v.pair().0)).collect()
+        }
+        "notin" => {
+            let neg: HashSet<V> = kid(1).into_iter().collect();
+            kid(0).into_iter().filter(|v| !neg.contains(v)).collect()
+        }
+        other => panic!("tick op {other}"),
+    }
+}
+
+/// does the tick term look at earlier ticks?
+pub fn tick_stateless(t: &T) -> bool {
+    !matches!(t.op.as_str(), "cyc" | "defer" | "across") && t.kids.iter().all(tick_stateless)
+}
+
 /// canonical printed form of a batch by kind (the same rule as the Lean driver's `canon`)
 pub fn canon(kind: &str, items: Vec<String>) -> Vec<String> {
     let mut v = items;
     match kind {
-        "sN" | "ksing" => v.sort(),
+        "sN" | "ksing" | "tN" => v.sort(),
         "sK" => v.sort_by(|a, b| key_of(a).cmp(key_of(b))), // stable
         _ => {}
     }
